@@ -431,6 +431,7 @@ Lemma named_operators_correct :
   (forall pp pn, op_correct_ (op_anti_join pp pn) (anti_join_spec pp pn)) /\
   (forall pp pn, op_correct_ (op_difference pp pn) (difference_spec pp pn)) /\
   op_correct_ (op_zip Tick Tick) zip_tick_spec /\
+  op_correct_ (op_zip Static Static) zip_static_spec /\
   op_correct_ op_zip_longest (fun _ cur => [vzip_longest (port 0 cur) (port 1 cur)]) /\
   (forall p i f, op_correct_ (op_scan p i f) (scan_spec p i f)).
 Proof.
@@ -454,6 +455,7 @@ Proof.
   - apply anti_join_correct.
   - apply difference_correct.
   - apply zip_tick_correct.
+  - apply zip_static_correct.
   - apply scan_correct.
 Qed.
 
